@@ -16,17 +16,91 @@ CONDS = ['tsv_first_last', 'tsv_middle', 'tsv_three_small', 'tsv_wrong_count', '
 INFO = {
     'engine': 'crosshair-tool 0.0.110 + z3',
     'explanation': 'see level text',
-    'bounds': {'quick': {c: 'see precondition in harness/ch_c16.py' for c in CONDS}, 'thorough': {c: 'same conditions with one more symbolic character per string, longer per-condition budget' for c in CONDS}},
-    'outside': ['cells containing line breaks (excluded by the statement)', 'longer cells / more columns', 'the field-count test of the streaming loop itself (C08 drives it with malformed lines)'],
+    'bounds': {'quick': dict({c: 'see precondition in harness/ch_c16.py' for c in CONDS}, loop_tsv='2 rows x 3 tab-separated cells from {empty, blank, a} through the real streaming loop'), 'thorough': dict({c: 'same conditions with one more symbolic character per string, longer per-condition budget' for c in CONDS}, loop_tsv='as quick')},
+    'outside': ['cells containing line breaks (excluded by the statement)', 'longer cells / more columns', 'the field-count test of the streaming loop on malformed lines (C08 drives it); here it is driven with well-formed tab-separated rows only'],
     'assumptions': ['open() replaced by a list-of-lines stub for the namespace map', 'SequenceConcatenation.__eq__ of crosshair 0.0.110 patched; sequences compared element-wise'],
     'job_timeout': {'quick': 500, 'thorough': 1800},
     'max_replays': 12, 'max_replays_per_cond': 2,
 }
-jobs, run_job = chharness.make('harness.ch_c16', CONDS, {'quick': 150, 'thorough': 700},
+_ch_jobs, _ch_run = chharness.make('harness.ch_c16', CONDS, {'quick': 150, 'thorough': 700},
                                [('outrank/core_utils.py', ['parse_ob_line', 'parse_ob_line_vw', 'parse_ob_csv_line', 'generic_line_parser', 'parse_namespace'])])
 
 
+# ---- the field-count test of the streaming loop on WELL-FORMED tab-separated rows (cells empty / blank anywhere) ----
+LOOP_POOL = ['', ' ', 'a']
+LOOP_ROWS = 2
+
+
+def loop_problem(table):
+    from harness import C08
+    from harness import pipeline as PL
+    cr, cu, tr, ie = PL.real_modules()
+    lines = ['\t'.join(C08.COLS) + '\n'] + ['\t'.join(r) + '\n' for r in table]
+    rec = C08.drive_loop(cr, cu, lines, 1, 1, data_source='ob-raw-dump', delimiter='\t')
+    got = [b[0] for b in rec['batches'] if b]
+    if got != [list(r) for r in table]:
+        return f'rows handed to the ranking {got} vs the rows of the file {[list(r) for r in table]}'
+    inv = [m for m in rec['log'] if 'invalid' in str(m).lower()]
+    return None
+
+
+def run_loop(job):
+    import z3
+    from vlib import hutil
+    from vlib.symx import SInt
+    loader.record_functions('outrank/core_ranking.py', ['estimate_importances_minibatches'])
+    loader.record_functions('outrank/core_utils.py', ['generic_line_parser', 'parse_ob_line'])
+    st = {}
+    NC = 3 * LOOP_ROWS
+
+    def setup(ctx):
+        st['c'] = [z3.Int(f'c{i}') for i in range(NC)]
+        for v in st['c']:
+            ctx.assume(v >= 0, v < len(LOOP_POOL))
+        for k, v in job['pins'].items():
+            ctx.assume(z3.Int(k) == v)
+
+    def body(ctx, out):
+        cells = [LOOP_POOL[int(SInt(v, 0, len(LOOP_POOL) - 1))] for v in st['c']]
+        table = [cells[i * 3:(i + 1) * 3] for i in range(LOOP_ROWS)]
+        w = {'cond': 'loop_tsv', 'fn': 'loop_tsv', 'table': table}
+        try:
+            p = loop_problem(table)
+        except Exception as e:
+            p = f'{type(e).__name__}: {e}'
+        if p or out.twin:
+            out.concrete_fail(w, p or 'twin')
+        else:
+            out.concrete_ok()
+        out.sample(w)
+    return hutil.run_symx(job, setup, body)
+
+
+def jobs(tier):
+    import pandas  # noqa
+    out = _ch_jobs(tier)
+    for c0 in range(len(LOOP_POOL)):
+        out.append({'cond': 'loop_tsv', 'pins': {'c0': c0}, 'weight': 20, 'label': f'streaming loop on tab-separated rows, first cell {LOOP_POOL[c0]!r}'})
+    return out
+
+
+def run_job(job):
+    return run_loop(job) if job['cond'] == 'loop_tsv' else _ch_run(job)
+
+
 def replay(w):
+    if w.get('fn') == 'loop_tsv':
+        try:
+            p = loop_problem(w['table'])
+        except Exception as e:
+            p = f'{type(e).__name__}: {e}'
+        if p:
+            return {'reproduced': True, 'signature': 'C16:loop-tsv', 'what': f'tab-separated file with rows {w["table"]} through the streaming loop: {p}'}
+        return {'reproduced': False, 'what': 'every well-formed row reaches the ranking'}
+    return _replay_ch(w)
+
+
+def _replay_ch(w):
     """the condition function evaluated concretely with the REAL outrank.core_utils module in place of the loaded source"""
     loader.use_repo_on_syspath()
     import outrank.core_utils as real
